@@ -56,7 +56,7 @@ func (x *Cell) Enumerate(name string, opts EnumOpts, body Body) {
 		}
 		return 0
 	}
-	var n int64
+	var n, nd int64
 	capped := false
 	var rec func(prefix []int, used int)
 	rec = func(prefix []int, used int) {
@@ -68,7 +68,31 @@ func (x *Cell) Enumerate(name string, opts EnumOpts, body Body) {
 			return
 		}
 		c := &Chooser{Prefix: prefix}
-		e := body(c)
+		var e Exec
+		diverged := false
+		x.deferEmit = true
+		func() {
+			defer func() {
+				if r := recover(); r != nil {
+					if _, ok := r.(ErrDiverged); ok {
+						diverged = true
+						return
+					}
+					panic(r)
+				}
+			}()
+			e = body(c)
+		}()
+		x.deferEmit = false
+		if diverged {
+			// the same prefix produced a different set of choice points: uncontrolled nondeterminism.
+			// The branch is dropped and reported; it never raises an alarm.
+			x.Note("nondeterministic_discarded", 1)
+			x.unconfirmed = nil
+			nd++
+			return
+		}
+		x.confirm(4, func() { body(&Chooser{Prefix: c.Choices()}) })
 		n++
 		x.Executions++
 		x.Outcome(name + "|" + e.Outcome)
@@ -104,6 +128,9 @@ func (x *Cell) Enumerate(name string, opts EnumOpts, body Body) {
 		}
 	}
 	rec(nil, 0)
+	if nd > 0 {
+		x.Cap(fmt.Sprintf("%s: %d branch(es) dropped because replaying their prefix diverged (uncontrolled nondeterminism)", name, nd))
+	}
 	if capped {
 		x.Cap(fmt.Sprintf("%s: execution/time cap hit after %d executions", name, n))
 	}
@@ -180,7 +207,10 @@ func (x *Cell) BFS(name string, opts BFSOpts, run RunHist) (reps [][]int) {
 					return reps
 				}
 				nh := append(append(make([]int, 0, len(h)+1), h...), op)
+				x.deferEmit = true
 				k, en := run(nh)
+				x.deferEmit = false
+				x.confirm(4, func() { run(nh) })
 				x.Executions++
 				if !en {
 					continue
